@@ -17,7 +17,7 @@ def _default_locals(f):
     """locals bound from the schema's `default` keyword: name -> binding stmt"""
     out = {}
     for pat in ("MV_d = MV_s.get('default', MV__)", "MV_d = MV_s.get('default')", "MV_d = MV_s['default']",
-                "MV_d = MV_s.pop('default', MV__)"):
+                "MV_d = MV_s.pop('default', MV__)", "MV_d = MV_s.pop('default')"):
         for node, b in find(pat, f):
             out[name_of(b["MV_d"])] = node
     return out
@@ -70,6 +70,17 @@ def k1(ctx, res):
             res.check(not bad, f, f"default extracted into `{name}` is attached to every returned element",
                       detail={"returns_dropping_it": bad},
                       reason="a declared default is never dropped, and lands on the element that is returned")
+    for f in sorted(parser.funcs.values(), key=lambda f: f.qualname):
+        sp = {p.name for p in f.params if p.name in ("schema", "definition", "sub_schema")}
+        for node in walk_own(f.body):
+            if isinstance(node, ast.Call) and isinstance(node.func, ast.Attribute) and isinstance(node.func.value, ast.Name) \
+                    and node.func.value.id in sp and node.func.attr in ("pop", "popitem", "clear"):
+                res.violation(f, node, reason="the parser removes a key from the caller's schema dict: the same dict is visited again "
+                                               "(shared $ref targets, the definitions pass) and the second visit no longer sees the keyword")
+            if isinstance(node, ast.Delete):
+                for t in node.targets:
+                    if isinstance(t, ast.Subscript) and isinstance(t.value, ast.Name) and t.value.id in sp:
+                        res.violation(f, node, reason="the parser deletes a key from the caller's schema dict (visited again later)")
     res.floor("default_extractions", n, 2)
 
 
@@ -104,7 +115,11 @@ def k2(ctx, res):
                     gs = flat_guards(P, node)
                     ok = any(pol is False and norm(tt) in (f"schema.get({k!r}, True)", f"schema[{k!r}]", f"schema.get({k!r})")
                              for tt, pol in gs)
-                    res.check(ok, ser, f"del schema[{k!r}]", reason="a keyword is deleted only when its own value is empty")
+                    droppable = k in ("properties", "required")
+                    res.check(ok and droppable, ser, f"del schema[{k!r}]",
+                              reason="a keyword is deleted only when its own value is empty, and only `properties` / `required`, "
+                                     "whose empty value means nothing (an empty or false `items`, a false additional*, a falsy "
+                                     "default are meaningful and must be emitted)")
         elif isinstance(node, ast.Call) and isinstance(node.func, ast.Attribute) and norm(node.func.value) == "schema" \
                 and node.func.attr in ("pop", "clear", "popitem", "update"):
             n += 1
@@ -663,3 +678,22 @@ def k8(ctx, res):
                       reason="the returned element is built in this call (fresh) - not taken from the parse state or a "
                              "module-level cache, where a later `element.default = ...` would leak into unrelated elements")
     res.floor("parser_returns", n, 25)
+
+
+
+# ---------------------------------------------------------------------- K9
+@rule("K9", "an object's description is carried verbatim: class keyword <-> docstring <-> emitted docstring")
+def k9(ctx, res):
+    isc = ctx.func("Object.__init_subclass__")
+    stores = [n for n in walk_own(isc.body) if isinstance(n, ast.Assign) and any(norm(t) == "cls.description" for t in n.targets)]
+    verdict = None
+    if stores:
+        verdict = all(norm(n.value) == "cls.__doc__" for n in stores)
+    res.judge(verdict, isc, "cls.description = cls.__doc__",
+              reason="the description read back from a generated class is the docstring itself, not a cleaned / re-indented copy")
+    py = ctx.func("ObjectMeta.python")
+    uses = [n for n in walk_own(py.body) if isinstance(n, ast.FormattedValue) and "description" in norm(n.value)]
+    ok = None
+    if uses:
+        ok = all(norm(u.value) in ("_docstring(cls.description)", "repr(cls.description)") or u.conversion == 114 for u in uses)
+    res.judge(ok, py, "docstring emitted from cls.description itself", reason="the emitted docstring is built from the unmodified description")
